@@ -13,5 +13,7 @@ def main(tier):
         try:
             f = extract.get('onsager/crystalStars.py', q); rep.under_contract('onsager/crystalStars.py' + '::' + q, 'onsager/crystalStars.py', f.l0, f.l1)
         except KeyError: pass
+    from contracts import fresh_c
+    fresh_c.run(rep, contracts=fresh_c.STARSET_CONTRACTS, class_fields=[])      # ownership contracts (level P): copies / sums share no mutable container with their operands
     M.annotate_C24(rep)
     return finish(rep, 'exploration', 'Postconditions of StarSet construction / addition / difference against a BFS spec of reachable non-zero pair states and brute-force orbits under the space group, on every catalogue crystal (ranges 1..2, 3 where small), with and without origin states; operands of an addition stay unchanged.', './check C24 --tier ' + tier)
